@@ -164,6 +164,11 @@ class NpArr2:
             return NpArr([eng.getitem(self.rows[eng_int(i)], j, node) for i, j in zip(idx[0].items, idx[1].items)])
         if isinstance(idx, int):
             return NpArr(self.rows[idx])
+        if isinstance(idx, tuple) and len(idx) == 2 and isinstance(idx[0], slice) and isinstance(idx[1], slice):
+            rows = self.rows[idx[0]]
+            return NpArr2([r[idx[1]] for r in rows])
+        if isinstance(idx, tuple) and len(idx) == 2 and isinstance(idx[0], slice) and isinstance(idx[1], int):
+            return NpArr([r[idx[1]] for r in self.rows[idx[0]]])
         raise Unsupported('2-D indexing %r' % (idx,))
 
     def vc_eq(self, eng, other):
